@@ -75,8 +75,8 @@ theorem genDelayed_eq (e : Env) (bad : Nat → Bool) (f : Nat) (t : LThunk) :
 theorem genMap_eq (s : LL) (f : MArg) : genMap s f = mapFull s f := by
   unfold genMap mapFull
   simp only [genCopy_eq, copyFull, LL.fresh, Fresh.setCallables, Fresh.callables, ToLL.toLL, Py.list, PyIter.iter, PyLen.len,
-    MArg.lenE, ToFnId.fid]
-  split <;> (try split) <;> (try split) <;> simp_all [Except.bind, id, map_zip_eq_zipWith]
+    MArg.lenE, ToFnId.fid, PyZip.zip]
+  split <;> (try split) <;> (try split) <;> simp_all [Except.bind, id, map_zip_eq_zipWith, Function.comp_def]
 
 theorem genLen_eq (s : LL) : genLen s = s.callables.length := by
   simp [genLen, PyLen.len]
@@ -121,14 +121,41 @@ theorem genImportGlob_eq (w : GlobWorld) (known : List Nat) (max : Option Int) (
         simp [capAssets, Py.optLe, hm, Except.bind, Py.truthyOptInt, hne, sliceTo_pos _ _ hpos] <;>
         split <;> simp_all [Function.comp_def]
 
+/-- the `for x in xs: found = g(x); if found is not None: break` loop is `findSome?` (the translator's state is
+(break flag, found)) -/
+theorem foldl_break_findSome {α β} (g : α → Option β) (body : Bool × Option β → α → Bool × Option β)
+    (hstop : ∀ v x, body (true, v) x = (true, v))
+    (hstep : ∀ v x, body (false, v) x = match g x with | some b => (true, some b) | none => (false, none))
+    (l : List α) :
+    (l.foldl body (false, none)).2 = l.findSome? g := by
+  have stopped : ∀ (l : List α) v, l.foldl body (true, v) = (true, v) := by
+    intro l; induction l with
+    | nil => intro v; rfl
+    | cons a t ih => intro v; rw [List.foldl_cons, hstop, ih]
+  induction l with
+  | nil => rfl
+  | cons a t ih =>
+    rw [List.foldl_cons, hstep, List.findSome?_cons]
+    cases g a with
+    | none => exact ih
+    | some b => simp [stopped]
+
 theorem genImporterFor_eq (f : FileEnt) (known : List Nat) : genImporterFor f known = importKind known f := by
   unfold genImporterFor importKind
   simp only []
-  rw [whileG_findSome_eq (Py.dictGet known) 0]
-  · simp only [findSome?_dictGet]
-    cases f.exts.find? (known.contains ·) <;> simp
-  · intro s; rcases s with ⟨a, l⟩; cases a <;> cases l <;> simp [Py.truthyList]
-  · intro s; rcases s with ⟨a, l⟩; simp
+  first
+  | (rw [whileG_findSome_eq (Py.dictGet known) 0]
+     · simp only [findSome?_dictGet]
+       cases f.exts.find? (known.contains ·) <;> simp
+     · intro s; rcases s with ⟨a, l⟩; cases a <;> cases l <;> simp [Py.truthyList]
+     · intro s; rcases s with ⟨a, l⟩; simp)
+  | (delta MenpoModel.Py.forLoop
+     rw [foldl_break_findSome (Py.dictGet known)]
+     · simp only [findSome?_dictGet]
+       cases f.exts.find? (known.contains ·) <;> simp
+     · intro v x; simp
+     · intro v x
+       cases h : Py.dictGet known x <;> simp [h])
 
 theorem genAttachLazy_eq (built : List LL) (r : Option Nat) (lmx : Option Unit) :
     genAttachLazy built r lmx = attachLazyFull built r lmx := by
